@@ -38,3 +38,11 @@ package service
 //@   loop 2 invariant idx: 0 <= i && i <= sum
 //@   loop 2 invariant fresh: fresh(data)
 //@   loop 2 decreases sum - i
+
+// ---------------------------------------------------------------------------------------------
+// C09: a delivered message owns its bytes: nothing the parser writes later (the caller's read buffer, the
+// pending-bytes buffer up to its capacity) overlaps the raw frame, the body or the BCD phone of a returned message.
+// ---------------------------------------------------------------------------------------------
+//@ func (*packageParse).unpack
+//@   ensures C09.data: forall(j, 0, len(msgs), disjoint(msgs[j].ExtensionFields.TerminalData, data) && disjoint(msgs[j].JTMessage.Body, data))
+//@   ensures C09.hist: forall(j, 0, len(msgs), disjoint(msgs[j].ExtensionFields.TerminalData, p.historyData) && disjoint(msgs[j].JTMessage.Body, p.historyData))
